@@ -9,6 +9,30 @@ From V Require Import Base NameMatch NameMatchLemmas Chart Exec Large LargeLemma
   Serialize SerializeCongLemmas RunConformBase.
 Local Open Scope nat_scope.
 
+(* ---- Appendix D's enterStates([doc.initial.transition]) (Spec.entry_step for Spec.init_trans) ---- *)
+
+Lemma ancs_root c : fs_parent (st c 0) = None -> ancs c 0 None = [].
+Proof. intros H. unfold ancs. destruct (Spec.n c); cbn [proper_ancestors]; [reflexivity | now rewrite H]. Qed.
+
+(* the domain of the document's initial transition is the <scxml> element *)
+Lemma init_trans_domain c h : fs_parent (st c 0) = None -> eff_targets c (Spec.n c) h (fst (initial_of c 0)) <> [] ->
+  transition_domain c h (init_trans c) = Some 0.
+Proof.
+  intros Hp Hne. unfold transition_domain. cbn [init_trans ft_targets ft_internal ft_source andb].
+  destruct (eff_targets c (Spec.n c) h (fst (initial_of c 0))) as [|y l]; [congruence|].
+  unfold find_lcca. rewrite (ancs_root c Hp). reflexivity.
+Qed.
+
+Lemma entry_step_init c h e0 : fs_parent (st c 0) = None ->
+  entry_step c h e0 (init_trans c) =
+  fold_left (fun e s => add_ancestors c (spec_fuel c) h s (Some 0) e) (eff_targets c (Spec.n c) h (fst (initial_of c 0)))
+            (fold_left (fun e s => add_descendants c (spec_fuel c) h s e) (fst (initial_of c 0)) e0).
+Proof.
+  intros Hp. unfold entry_step. cbn zeta. cbn [init_trans ft_targets].
+  destruct (eff_targets c (Spec.n c) h (fst (initial_of c 0))) as [|y l] eqn:E; [reflexivity|].
+  rewrite (init_trans_domain c h Hp) by (rewrite E; discriminate). reflexivity.
+Qed.
+
 Section InitSets.
 Variable c : fchart.
 Hypothesis W : WF c.
@@ -176,13 +200,18 @@ Proof. destruct (wf_par_lt c W _ _ k_child). split; assumption. Qed.
 
 (* Appendix D: enterStates([doc.initial.transition]) *)
 Definition spec_init_eset : eset :=
-  fold_left (fun e s => add_ancestors c (spec_fuel c) h s (Some 0) (add_descendants c (spec_fuel c) h s e))
-            (fst (initial_of c 0)) {| e_enter := []; e_default := []; e_histcontent := [] |}.
+  entry_step c h {| e_enter := []; e_default := []; e_histcontent := [] |} (init_trans c).
+
+Lemma eff_single_core g : eff_targets c (Spec.n c) h [g] = [g].
+Proof.
+  unfold Spec.n. destruct k_pos as [_ Hn]. unfold n in Hn. destruct (nstates c) as [|m]; [lia|].
+  cbn [eff_targets fold_left]. rewrite (hist_false c W). reflexivity.
+Qed.
 
 Lemma spec_init_eset_spec :
   e_histcontent spec_init_eset = [] /\ forall x, In x (e_enter spec_init_eset) <-> DD k x.
 Proof.
-  unfold spec_init_eset. rewrite (initial_core c W 0 k Hk). cbn [fold_left].
+  unfold spec_init_eset. rewrite (entry_step_init c h _ (wf_root_par c W)), (initial_core c W 0 k Hk), eff_single_core. cbn [fold_left].
   rewrite (add_anc_child c h) by exact k_child.
   destruct k_pos as [_ Hkn].
   destruct (AD0_all (spec_fuel c) k {| e_enter := []; e_default := []; e_histcontent := [] |}) as [A B].
